@@ -9,7 +9,10 @@ Two generators: (1) a depth-bounded COMPLETE enumeration of event sequences (hos
 writes of IMR and ISR / nothing) at the first D boundaries of a spin loop, crossed with small timer periods,
 initial masks and two handlers; (2) seeded random scenarios over program skeletons with HALT / OFF / WAIT,
 handler bodies (acknowledging, re-enabling, IMR-changing), all mask/status values, timer periods and event
-schedules over 60 boundaries; (3) seeded contention scenarios (several sources pending at once under a busy main loop).
+schedules over 60 boundaries; (3) seeded contention scenarios (several sources pending at once under a busy main loop);
+(4) seeded handler-exit scenarios: the handler returns with RETI, ends with the RESET instruction (firmware restart: no
+RETI ever matches the entry), falls into HALT before returning, or never returns; the main loop re-initialises the mask
+register itself and requests keep arriving over the whole run.
 
 Host-side configuration is a generated dimension of its own (configure / variants): the Python model is run on the
 normal or on the `fast_mode` execution path of PCE500Emulator.step; the Rust model is run single-stepped and, for
@@ -46,7 +49,12 @@ RULE = ("machine scenario = (main-loop slots, handler slots, initial IMR/ISR/F, 
         "boundaries, a source masked while another is served and unmasked by the program later, master enable "
         "switched off/on inside the loop, firmware-raised status bits; host configuration (own stream, co-varied): "
         "Python fast_mode on for 1/3 of all scenarios, Rust additionally run with batched CoreRuntime::step(n), n in "
-        "{2,3,7,50,1000} cut at host events, for 1/4 of the enumerated/random and all contention scenarios. Non-trivial = at least one delivery, "
+        "{2,3,7,50,1000} cut at host events, for 1/4 of the enumerated/random and all contention scenarios; handler-exit "
+        "part: seeded scenarios whose handler exit kind is generated (RESET instruction 1/2, RETI 1/4, HALT;RETI 1/8, "
+        "never returns 1/8), main loop = filler (NOP/INC/KIL/HALT) + MV|OR (IMR),80|sources written on every pass "
+        "(+ optional AND (IMR),7F / OR (IMR),80 pair), handler body as in the sampled part, timers 3..12 (STI 0 / k x "
+        "MTI / 5,7,11), key inject / key down-up / ON events over all 60 boundaries, stack window 320 bytes for "
+        "non-returning handlers; half of them also run batched on Rust. Non-trivial = at least one delivery, "
         "or a pending-but-masked status for >= 2 consecutive boundaries, or a HALT/OFF wake-up; distinct = hash of "
         "(model, scenario).")
 
@@ -98,6 +106,19 @@ ASSUMPTIONS = [
     "the state after the j-th instruction of a CoreRuntime::step(n) call is observed as the state of an identical "
     "fresh machine driven through the same earlier calls and then step(j) (both are real runs through the public "
     "API; the loop body of step() does not know n); the resulting records are read as the trace of the batched run",
+    "RESET instruction (opcode FF) in a handler = firmware restart: both models document that it clears ISR and keeps "
+    "IMR, S, F and the CPU registers (eval_intrinsic_reset docstring; llama/eval.rs power_on_reset); the monitor "
+    "accepts the target of either vector as the restart address (Rust documents 0xFFFFD, the Python docstring 0xFFFFA: "
+    "not C12's subject) and treats every active handler as over (no RETI will match its frame; Rust: "
+    "clear_pending_for_reset + unit test reset_intrinsic_clears_irq_and_call_metadata 'reset should exit interrupt "
+    "context'): from then on the ordinary obligations of main-program context apply (sentence 2: a request that is "
+    "enabled and pending is taken promptly)",
+    "requests are not required to be taken, and nothing is required of the timers, while a handler is active (also "
+    "when the CPU is halted inside a handler or the handler never returns)",
+    "timers keep running outside handlers: when the model's own cycle counter has reached the model's own expiry "
+    "target (period > 0) at the start of a step with no handler active before or after it, the CPU running before and "
+    "after, exactly one instruction executed and no delivery, the target moves in that step (both step loops tick "
+    "the timers once per executed instruction unless a handler is active); reported once per timer and run",
     "Rust serves one source per delivery and its RETI clears exactly that status bit (lib.rs/eval.rs): an event-raised "
     "request that was only a co-candidate of that delivery and is still pending after the RETI keeps its 3-boundary "
     "obligation; Python has no per-source bookkeeping (one delivery stands for all candidates): nothing re-registered",
@@ -319,6 +340,85 @@ def contention_scenario(st: Stream) -> Tuple[Dict[str, Any], str]:
     return sc, "contend-" + kind
 
 
+def hexit_scenario(st: Stream) -> Tuple[Dict[str, Any], str]:
+    """Handler exit kind as a dimension: the handler returns with RETI, ends with the RESET instruction (the firmware
+    restarts through the reset vector instead of returning; no RETI ever matches that entry), falls into HALT before
+    it returns, or never returns (spins over its body).  The main loop (re)initialises the mask register itself, as
+    restarted firmware does, and requests keep arriving over the whole run (timer expiries, key events, ON key): after
+    a RESET the machine must take enabled pending requests again and its timers must keep expiring."""
+    kind = st.choice(("reset", "reset", "reset", "reset", "halt", "spin", "reti", "reti"))
+    srcs = st.choice((0x01, 0x03, 0x04, 0x04, 0x05, 0x07, 0x08, 0x0C, 0x0D, 0x0F, 0x0F))
+    main: List[List[Any]] = []
+    for _ in range(2 + st.below(5)):
+        r = st.below(100)
+        main.append(["NOP"] if r < 60 else (["INCA"] if r < 75 else (["INCM", R.SCRATCH] if r < 85 else
+                                                                     (["KIL"] if r < 92 else ["HALT"]))))
+    # firmware initialisation inside the loop: master enable + source masks are written on every pass
+    init = ["IMR", 0x80 | srcs] if st.chance(3, 4) else ["ORIMR", 0x80 | srcs]
+    main.insert(0 if st.chance(1, 2) else st.below(len(main) + 1), init)
+    if st.chance(1, 6):
+        a = st.below(len(main) + 1)
+        main.insert(a, ["ANDIMR", 0x7F])
+        main.insert(a + 1 + st.below(len(main) - a), ["ORIMR", 0x80])
+    handler: List[List[Any]] = []
+    for _ in range(st.below(4)):
+        r = st.below(100)
+        if r < 30:
+            handler.append(["NOP"])
+        elif r < 50:
+            handler.append(["ACK", 0xFF ^ (1 << st.below(4))])
+        elif r < 62:
+            handler.append(["ISR", 0])
+        elif r < 76:
+            handler.append(["INCM", R.SCRATCH])
+        elif r < 84:
+            handler.append(["ORIMR", 0x80])
+        elif r < 92:
+            handler.append(["IMR", st.choice(IMR_VALUES)])
+        else:
+            handler.append(["KIL"])
+    imr0 = (0x80 | srcs) if st.chance(2, 3) else st.choice(IMR_VALUES)
+    mti = sti = 0
+    if srcs & 0x03 or st.chance(1, 3):
+        mti = st.choice((3, 4, 5, 6, 7, 8, 9, 12))
+        sti = st.choice((0, 0, mti, 2 * mti, 3 * mti, 5, 7, 11))
+    steps = 60
+    events: List[List[Any]] = []
+    key_down: Dict[str, bool] = {}
+    on_down = False
+    dens = st.choice((0, 4, 6, 6, 10))
+    if dens and (srcs & 0x0C or st.chance(1, 2)):
+        for k in range(steps):
+            if st.below(dens) != 0:
+                continue
+            r = st.below(100)
+            if r < 45:
+                events.append([k, "key_inject", st.choice(KEYS)])
+            elif r < 60:
+                key = st.choice(KEYS)
+                events.append([k, "key_up" if key_down.get(key) else "key_down", key])
+                key_down[key] = not key_down.get(key, False)
+            else:
+                events.append([k, "on_up" if on_down else "on_down", None])
+                on_down = not on_down
+    prog: Dict[str, Any] = {"main": main, "handler": handler}
+    if kind != "reti":
+        prog["hexit"] = kind
+    sc: Dict[str, Any] = {"prog": prog, "imr0": imr0, "isr0": 0 if st.chance(3, 4) else st.below(16), "f0": st.byte(),
+                          "ba0": st.word(), "i0": 1 + st.below(20), "mti": mti, "sti": sti, "steps": steps,
+                          "events": events}
+    if kind in ("reset", "spin"):
+        # a handler that does not return leaks one 5-byte frame per delivery: observe a deeper stack window
+        sc["stkwin"] = 5 * steps + 20
+    if st.chance(1, 2):
+        sc["bp0"] = st.choice(BASES)
+    if st.chance(1, 2):
+        sc["imfill"] = st.below(256)
+    if st.chance(1, 8):
+        sc["kbirq"] = False
+    return sc, "hexit-" + kind
+
+
 def configure(sc: Dict[str, Any], st: Stream, always_batch: bool = False) -> Dict[str, Any]:
     """Host-side configuration of a scenario, drawn from a stream of its own (scenario draws are unchanged):
     "fast" (Python model only): PCE500Emulator.fast_mode, the documented 'minimal execution path' of step() that
@@ -368,6 +468,8 @@ def summarize(sc: Dict[str, Any]) -> str:
         extra += " fast_mode=on"
     if sc.get("batch"):
         extra += f" host-calls=step({sc['batch']})"
+    if sc["prog"].get("hexit"):
+        extra += f" handler-exit={sc['prog']['hexit']}"
     return (f"main[{slots(sc['prog']['main'])}] handler[{slots(sc['prog']['handler'])}] imr0={sc['imr0']:02X} "
             f"isr0={sc['isr0']:02X} mti={sc['mti']} sti={sc['sti']} events={len(sc.get('events', []))}" + extra)
 
@@ -409,6 +511,11 @@ def _shard(task: Tuple[str, int, int, int, int, str]) -> Report:
         for j in range(param):
             sc, skel = contention_scenario(Stream(seed, 0xC12D, shard, j))
             scs.append((sc, configure(sc, Stream(seed, 0xC12F, shard, j), always_batch=True), ["gen:contention", f"skel:{skel}"]))
+    elif kind == "hexit":
+        for j in range(param):
+            sc, skel = hexit_scenario(Stream(seed, 0xC124, shard, j))
+            scs.append((sc, configure(sc, Stream(seed, 0xC125, shard, j), always_batch=(j % 2 == 0)),
+                        ["gen:handler-exit", f"skel:{skel}"]))
     else:
         count = param
         for j in range(count):
@@ -451,6 +558,8 @@ def run(ctx: Ctx) -> Report:
     tasks += [("rand", i, nsh, ctx.seed, per, ctx.tier) for i in range(nsh)]
     per_c = ctx.pick(20, 60)
     tasks += [("contend", i, nsh, ctx.seed, per_c, ctx.tier) for i in range(nsh)]
+    per_x = ctx.pick(20, 60)
+    tasks += [("hexit", i, nsh, ctx.seed, per_x, ctx.tier) for i in range(nsh)]
     reports = ctx.pmap(_shard, tasks)
     rep = ctx.merge_reports(reports)
     rep.rule = RULE
@@ -463,6 +572,7 @@ def run(ctx: Ctx) -> Report:
                                 "complete": True}
     rep.extra["random_scenarios_per_model"] = per * nsh
     rep.extra["contention_scenarios_per_model"] = per_c * nsh
+    rep.extra["handler_exit_scenarios_per_model"] = per_x * nsh
     rep.extra["configuration"] = {"python fast_mode": "1/3 of all scenarios", "rust batched step(n)": "an additional run "
                                   "for 1/4 of the enumerated/random scenarios and for every contention scenario",
                                   "batch sizes": sorted(set(BATCHES))}
@@ -554,7 +664,12 @@ def shrink(ctx: Ctx, v: Violation) -> Violation:
                 c["sc"][field] = val
                 if attempt(c):
                     changed = True
-        for field in ("px0", "py0", "bp0", "imfill", "kbirq", "fast", "batch"):
+        if best["sc"]["prog"].get("hexit"):
+            c = clone()
+            del c["sc"]["prog"]["hexit"]
+            if attempt(c):
+                changed = True
+        for field in ("px0", "py0", "bp0", "imfill", "kbirq", "fast", "batch", "stkwin"):
             if field in best["sc"]:
                 c = clone()
                 del c["sc"][field]
